@@ -145,6 +145,12 @@ def skel_NLSolver_Solve : List String := [
   "if (LoadModel(mdl) && Solve(solver, solver_opts)) { (sol = ReadSolution()) ; if sol.x_.size() { (sol.obj_val_ = mdl.ComputeObjValue(sol.x_.data())) } }",
   "return sol"]
 
+def skel_NLSuffix_less : List String := [
+  "return (make_pair(name_, (kind_ & 3)) < make_pair(s.name_, (s.kind_ & 3)))"]
+
+def skel_StringFileWriter_dtor : List String := [
+  "if (!(cnt_) && !(fTriedOpen_)) { opener_(true) }"]
+
 def skel_NLW2_SetWarmstart_C : List String := [
   "CastNZ(nlme.p_data_).SetWarmstart(ini_x)"]
 
@@ -181,6 +187,8 @@ def skeletons : List (String × List String) := [
   ("NLSolver_LoadModel", skel_NLSolver_LoadModel),
   ("NLSolver_ReadSolution", skel_NLSolver_ReadSolution),
   ("NLSolver_Solve", skel_NLSolver_Solve),
+  ("NLSuffix_less", skel_NLSuffix_less),
+  ("StringFileWriter_dtor", skel_StringFileWriter_dtor),
   ("NLW2_SetWarmstart_C", skel_NLW2_SetWarmstart_C),
   ("NLW2_SetDualWarmstart_C", skel_NLW2_SetDualWarmstart_C)]
 
